@@ -235,6 +235,10 @@ def do_op(m, op):
         parent = find(m, op[1])
         bases = [find(m, b) for b in op[3]]
         parent.new_space(op[2], bases=bases)
+    elif k == "NewSpaceBad":
+        parent = find(m, op[1])
+        bases = [find(m, b) for b in op[3]]
+        parent.new_space(op[2], bases=bases, formula="not a function !")
     elif k == "NewCells":
         s = find(m, op[1])
         s.new_cells(op[2], formula=src_of(op[3]))
